@@ -48,6 +48,45 @@ def tus(tier, seed):
             body += '  gox<%s, %d, %d, %s, %d, %d>(rng);\n' % (C01.CT[a], e1, r1, C01.CT[b], e2, r2)
         body += '}\n'
         res.append(dict(name='C04X_%d' % (i // 4), src=body, compiler='g++'))
+    # wrap/unwrap and from_rep/to_rep are exact inverses (table C04w, model CnlModel/Wrap.lean)
+    whdr = os.path.join(os.path.dirname(os.path.abspath(__file__)), 'C04w.h')
+    ovt = ['saturated_overflow_tag', 'trapping_overflow_tag', 'native_overflow_tag', 'undefined_overflow_tag', '_impl::throwing_overflow_tag']
+    rdt = ['nearest_rounding_tag', 'tie_to_pos_inf_rounding_tag', 'neg_inf_rounding_tag', 'native_rounding_tag']
+    ints = list(C01.CT)
+    rnd = random.Random(seed * 71 + 44)
+    def ct(t):
+        return C01.CT[t]
+    def nest():
+        r = ct(rnd.choice(ints[:8]))
+        last = None
+        for _ in range(rnd.randint(0, 2)):
+            # (a wrapper directly over the same kind of wrapper is not a nest the library keeps apart: kinds alternate)
+            kind = rnd.choice([k for k in ('ov', 'rd') if k != last])
+            last = kind
+            r = 'overflow_integer<%s, %s>' % (r, rnd.choice(ovt)) if kind == 'ov' else 'rounding_integer<%s, %s>' % (r, rnd.choice(rdt))
+        return rnd.choice([r, 'scaled_integer<%s, power<%d, %d>>' % (r, rnd.randint(-20, 20), rnd.choice([2, 2, 10]))])
+    Ts = ['scaled_integer<std::int8_t, power<-2>>', 'scaled_integer<std::uint16_t, power<3>>', 'scaled_integer<std::int64_t, power<-3, 10>>',
+          'overflow_integer<std::int16_t, saturated_overflow_tag>', 'rounding_integer<std::uint8_t, tie_to_pos_inf_rounding_tag>',
+          'scaled_integer<overflow_integer<std::int8_t, saturated_overflow_tag>, power<-2>>',
+          'overflow_integer<rounding_integer<std::uint32_t, neg_inf_rounding_tag>, trapping_overflow_tag>',
+          'scaled_integer<overflow_integer<rounding_integer<std::int32_t, nearest_rounding_tag>, _impl::throwing_overflow_tag>, power<-8>>',
+          'elastic_integer<10, int>', 'elastic_integer<%d, unsigned>' % rnd.randint(1, 32), 'scaled_integer<elastic_integer<%d, int>, power<-3>>' % rnd.randint(2, 31),
+          'rounding_integer<elastic_integer<7, std::int16_t>, nearest_rounding_tag>', 'elastic_integer<40, int>', 'int', 'std::uint64_t']
+    Ts += [nest() for _ in range(4 if tier == 'quick' else 24)]
+    calls = []
+    for T in Ts:
+        vs = set([rnd.choice(ints[:8]), rnd.choice(ints), 'i32'])
+        for t in ints[:8]:
+            if ct(t) in T and 'elastic' not in T:
+                vs.add(t)   # the archetype's own representation type
+        for v in sorted(vs):
+            calls.append('gow<%s, %s>(rng);' % (T, ct(v)))
+            if T not in ('int', 'std::uint64_t'):
+                calls.append('gor<%s, %s>(rng);' % (T, ct(v)))
+    per = 14
+    for i in range(0, len(calls), per):
+        body = '#include "%s"\nint main(){ install(); Rng rng(seed_from_env()+%d);\n  %s\n}\n' % (whdr, 900 + i, '\n  '.join(calls[i:i + per]))
+        res.append(dict(name='C04W_%d' % (i // per), src=body, compiler='clang++' if (tier == 'thorough' and (i // per) % 3 == 1) else 'g++'))
     return res
 
 
